@@ -215,6 +215,21 @@ func boundsFromGuards(b *ssa.BasicBlock, v ssa.Value) (lb, ub *int64) {
 }
 
 func ruleLintNarrow(c *Ctx, r *Rep) {
+	// numbers in configurations are decimal: strconv.ParseInt / ParseUint with base 0 would read 010 as eight
+	for _, fn := range c.Funcs {
+		for _, ci := range callsIn(fn) {
+			name := calleeFullName(ci)
+			if name != "strconv.ParseInt" && name != "strconv.ParseUint" {
+				continue
+			}
+			k, ok := ci.Common().Args[1].(*ssa.Const)
+			base := int64(-1)
+			if ok && k.Value != nil {
+				base = k.Int64()
+			}
+			r.Check(base == 10, "decimal-parse|"+c.FuncKey(fn), c.Pos(ci.Pos()), "base 10 (a count or octet written with leading zeros is still decimal)", sprintf("base %d", base))
+		}
+	}
 	for _, fn := range c.Funcs {
 		for _, b := range fn.Blocks {
 			for _, ins := range b.Instrs {
